@@ -175,4 +175,78 @@
 #define os_atomic_rmw_loop_give_up(expr) \
 		os_atomic_rmw_loop_give_up_with_fence(relaxed, expr)
 
+#if DISPATCH_VERIF
+/*
+ * Verification seam (off unless built with -DDISPATCH_VERIF=1): every atomic
+ * operation is bracketed by two scheduling points of an external deterministic
+ * scheduler, and a weak compare-and-swap may be told to fail spuriously.
+ * With -DDISPATCH_VERIF_TSAN=1 the compiler's -fsanitize=thread instrumentation
+ * provides the scheduling points instead and the atomics are left alone.
+ */
+extern void _dispatch_verif_point(const volatile void *addr, int post);
+extern int _dispatch_verif_weak_cas_fails(const volatile void *addr);
+extern void _dispatch_verif_probe(int id);
+extern int _dispatch_verif_unusual(int id);
+#define DISPATCH_VERIF_PROBE(id) _dispatch_verif_probe(id)
+#define DISPATCH_VERIF_UNUSUAL(id) _dispatch_verif_unusual(id)
+#if DISPATCH_VERIF_TSAN
+#undef os_atomic_cmpxchgvw
+#define os_atomic_cmpxchgvw(p, e, v, g, m) ({ __typeof__(p) _dvp = (p); \
+		_os_atomic_basetypeof(_dvp) _r = (e); _Bool _b; \
+		if (_dispatch_verif_weak_cas_fails(_dvp)) { \
+			_r = atomic_load_explicit(_os_atomic_c11_atomic(_dvp), \
+					memory_order_relaxed); _b = 0; \
+		} else { _b = atomic_compare_exchange_weak_explicit( \
+			_os_atomic_c11_atomic(_dvp), &_r, v, memory_order_##m, \
+			memory_order_relaxed); } \
+		*(g) = _r; _b; })
+#else // DISPATCH_VERIF_TSAN
+#define _DV_PRE(p)  _dispatch_verif_point((const volatile void *)(p), 0)
+#define _DV_POST(p) _dispatch_verif_point((const volatile void *)(p), 1)
+#undef os_atomic_load
+#define os_atomic_load(p, m) ({ __typeof__(p) _dvp = (p); _DV_PRE(_dvp); \
+		_os_atomic_basetypeof(_dvp) _dvr = atomic_load_explicit( \
+		_os_atomic_c11_atomic(_dvp), memory_order_##m); _DV_POST(_dvp); _dvr; })
+#undef os_atomic_store
+#define os_atomic_store(p, v, m) ({ __typeof__(p) _dvp = (p); _DV_PRE(_dvp); \
+		atomic_store_explicit(_os_atomic_c11_atomic(_dvp), v, memory_order_##m); \
+		_DV_POST(_dvp); })
+#undef os_atomic_xchg
+#define os_atomic_xchg(p, v, m) ({ __typeof__(p) _dvp = (p); _DV_PRE(_dvp); \
+		_os_atomic_basetypeof(_dvp) _dvr = atomic_exchange_explicit( \
+		_os_atomic_c11_atomic(_dvp), v, memory_order_##m); _DV_POST(_dvp); _dvr; })
+#undef os_atomic_cmpxchg
+#define os_atomic_cmpxchg(p, e, v, m) ({ __typeof__(p) _dvp = (p); _DV_PRE(_dvp); \
+		_os_atomic_basetypeof(_dvp) _r = (e); _Bool _dvb = \
+		atomic_compare_exchange_strong_explicit(_os_atomic_c11_atomic(_dvp), \
+		&_r, v, memory_order_##m, memory_order_relaxed); _DV_POST(_dvp); _dvb; })
+#undef os_atomic_cmpxchgv
+#define os_atomic_cmpxchgv(p, e, v, g, m) ({ __typeof__(p) _dvp = (p); _DV_PRE(_dvp); \
+		_os_atomic_basetypeof(_dvp) _r = (e); _Bool _b = \
+		atomic_compare_exchange_strong_explicit(_os_atomic_c11_atomic(_dvp), \
+		&_r, v, memory_order_##m, memory_order_relaxed); *(g) = _r; \
+		_DV_POST(_dvp); _b; })
+#undef os_atomic_cmpxchgvw
+#define os_atomic_cmpxchgvw(p, e, v, g, m) ({ __typeof__(p) _dvp = (p); _DV_PRE(_dvp); \
+		_os_atomic_basetypeof(_dvp) _r = (e); _Bool _b; \
+		if (_dispatch_verif_weak_cas_fails(_dvp)) { \
+			_r = atomic_load_explicit(_os_atomic_c11_atomic(_dvp), \
+					memory_order_relaxed); _b = 0; \
+		} else { _b = atomic_compare_exchange_weak_explicit( \
+			_os_atomic_c11_atomic(_dvp), &_r, v, memory_order_##m, \
+			memory_order_relaxed); } \
+		*(g) = _r; _DV_POST(_dvp); _b; })
+#undef _os_atomic_c11_op
+#define _os_atomic_c11_op(p, v, m, o, op) ({ __typeof__(p) _dvp = (p); _DV_PRE(_dvp); \
+		_os_atomic_basetypeof(_dvp) _v = (v), _r = \
+		atomic_fetch_##o##_explicit(_os_atomic_c11_atomic(_dvp), _v, \
+		memory_order_##m); _DV_POST(_dvp); (__typeof__(_r))(_r op _v); })
+#undef _os_atomic_c11_op_orig
+#define _os_atomic_c11_op_orig(p, v, m, o, op) ({ __typeof__(p) _dvp = (p); _DV_PRE(_dvp); \
+		_os_atomic_basetypeof(_dvp) _dvr = \
+		atomic_fetch_##o##_explicit(_os_atomic_c11_atomic(_dvp), v, \
+		memory_order_##m); _DV_POST(_dvp); _dvr; })
+#endif // DISPATCH_VERIF_TSAN
+#endif // DISPATCH_VERIF
+
 #endif // __DISPATCH_SHIMS_ATOMIC__
